@@ -1,5 +1,5 @@
 """Running TLC: model checking runs and trace validation runs."""
-import os, re, subprocess, shutil, json, glob
+import os, re, subprocess, shutil, json, glob, threading
 from common import SPEC
 
 JAR = "/opt/veriftools/tla/tla2tools.jar:/opt/veriftools/tla/CommunityModules-deps.jar"
@@ -20,7 +20,7 @@ def stage(workdir, modules=None):
                 continue
         except OSError:
             pass
-        tmp = dst + ".%d.tmp" % os.getpid()
+        tmp = dst + ".%d.%d.tmp" % (os.getpid(), threading.get_ident())      # several threads of one check may stage the same directory
         with open(tmp, "wb") as fh:
             fh.write(data)
         os.replace(tmp, dst)
